@@ -39,3 +39,8 @@ pub fn tp_park_unreachable(_t: &ThreadPark, _d: Option<Duration>) -> Result<(), 
 pub fn tp_unpark_unreachable(_t: &ThreadPark) {
     assert!(false, "model: thread unpark in a coroutine harness");
 }
+
+/// wake token of a SyncBlocker (its inner Blocker is private to blocking.rs)
+pub fn sync_blocker_token(b: &SyncBlocker) -> *mut usize {
+    blocker_token(&b.blocker)
+}
